@@ -20,7 +20,7 @@ REPO = "/repo"
 # property -> list of (name, file relative to /repo, old, new)
 MUTANTS = {
     "C02": [
-        ("amount-to-add-term*", "src/phreeqcpp/step.cpp", "\t\t\t\t\tmaster_ptr->total += elt_list[i].coef * amount_to_add;", "\t\t\t\t\tmaster_ptr->total += elt_list[i].coef * amount_to_add * 0.999;"),
+        ("diffuse-layer-term", "src/phreeqcpp/step.cpp", "\t\t\t\t\tmaster_j_ptr->total += coef;", "\t\t\t\t\tmaster_j_ptr->total += coef * 1.0001;"),
         ("mix-cb", "src/phreeqcpp/step.cpp", "\tcb_x += solution_ptr->Get_cb() * extensive;", "\tcb_x += solution_ptr->Get_cb() * intensive;"),
         ("exchange-h-total", "src/phreeqcpp/step.cpp", "\t\t\tif (master_ptr->s == s_hplus)\n\t\t\t{\n\t\t\t\ttotal_h_x += coef;\n\t\t\t}\n\t\t\telse if (master_ptr->s == s_h2o)\n\t\t\t{\n\t\t\t\ttotal_o_x += coef;\n\t\t\t}\n\t\t\telse\n\t\t\t{\n\t\t\t\tmaster_ptr->total += coef;\n\t\t\t}\n\t\t}\n\t}\n\tif (exchange_ptr->Get_new_def())", "\t\t\tif (master_ptr->s == s_hplus)\n\t\t\t{\n\t\t\t\ttotal_h_x += coef;\n\t\t\t}\n\t\t\telse if (master_ptr->s == s_h2o)\n\t\t\t{\n\t\t\t\ttotal_o_x += coef;\n\t\t\t}\n\t\t\telse\n\t\t\t{\n\t\t\t\tmaster_ptr->total += coef * (coef > 1e-3 ? 1.00001 : 1.0);\n\t\t\t}\n\t\t}\n\t}\n\tif (exchange_ptr->Get_new_def())"),
     ],
